@@ -177,12 +177,14 @@ class Spans:
         return s
 
     def __iadd__(self, other):
-        for (start, length) in other:
+        # list(): 'other' may be this very object (s += s), whose span list
+        # must not be modified while it is being iterated over
+        for (start, length) in list(other):
             self.add(start, length)
         return self
 
     def __isub__(self, other):
-        for (start, length) in other:
+        for (start, length) in list(other):
             self.remove(start, length)
         return self
 
